@@ -76,6 +76,7 @@ type Engine struct {
 	ghostInit    bool
 	sentinelDone map[string]bool
 	factDone     map[string]bool
+	interior     map[string]*interiorCand
 }
 
 type storeRec struct {
@@ -248,6 +249,9 @@ func (e *Engine) newRef(st *State, what string) string {
 	cur := e.allocCounter(st)
 	r := e.sc.define("ref_"+what, "Int", "(+ "+cur+" 1)")
 	st.Heaps[allocHeap] = r
+	if e.interior != nil {
+		e.sc.assert("(= (pkind " + r + ") 0)")
+	}
 	if cur == e.initHeaps[fmt.Sprintf("%s@%d", allocHeap, 0)] && !e.ghostInit {
 		e.ghostInit = true
 		e.sc.assert("(>= " + cur + " 0)")
